@@ -326,8 +326,9 @@ def checkIds (f : Nat → Option Err) : List Nat → Option Err
     | some e => some e
     | none => checkIds f is
 
-/-- `Branch.AddVectors` (`data.CreateVector` reads the object's file first) -/
-def addVectors (s : State K V) (b : Nat) (ids : List Nat) : Except Err (State K V) :=
+/-- `Branch.AddVectors` on the de-duplicated id list (`data.CreateVector` reads the object's
+    file first) -/
+def addVectorsOf (s : State K V) (b : Nat) (ids : List Nat) : Except Err (State K V) :=
   match s.tip b with
   | none => .error .noBranch
   | some t =>
@@ -339,8 +340,12 @@ def addVectors (s : State K V) (b : Nat) (ids : List Nat) : Except Err (State K 
       | some e => .error e
       | none => .ok (s.commit b t (ids.map .addVec))
 
-/-- `Branch.DeleteVectors` -/
-def deleteVectors (s : State K V) (b : Nat) (ids : List Nat) : Except Err (State K V) :=
+/-- `Branch.AddVectors`: the id list is de-duplicated first (fix 3863440f6) -/
+def addVectors (s : State K V) (b : Nat) (ids : List Nat) : Except Err (State K V) :=
+  addVectorsOf s b (uniqueIds ids)
+
+/-- `Branch.DeleteVectors` on the de-duplicated id list -/
+def deleteVectorsOf (s : State K V) (b : Nat) (ids : List Nat) : Except Err (State K V) :=
   match s.tip b with
   | none => .error .noBranch
   | some t => match snapAt s.commits t with
@@ -349,6 +354,10 @@ def deleteVectors (s : State K V) (b : Nat) (ids : List Nat) : Except Err (State
       match checkIds (fun i => if !snap.hasObj i then some .notFound else if !snap.hasVec i then some .noVector else none) ids with
       | some e => .error e
       | none => .ok (s.commit b t (ids.map .delVec))
+
+/-- `Branch.DeleteVectors`: the id list is de-duplicated first (fix 3863440f6) -/
+def deleteVectors (s : State K V) (b : Nat) (ids : List Nat) : Except Err (State K V) :=
+  deleteVectorsOf s b (uniqueIds ids)
 
 /-- ids added by `acts` -/
 def addedIds : List (Action K) → List Nat
@@ -445,5 +454,25 @@ def step (cfg : Cfg K V) (s : State K V) (op : Op V) : State K V :=
 
 def run (cfg : Cfg K V) (s : State K V) (ops : List (Op V)) : State K V :=
   ops.foldl (step cfg) s
+
+/-- `Branch.mergeInto` as it runs among other clients: the commit retry loop of `Branch.commit`.
+    The child's tip `ctip` is read once, before the loop.  Every attempt looks the parent's tip
+    up (`seen`), builds the merge object against it (`buildMergeObject`), writes it, and moves
+    the branch pointer under the constraint "the tip is still `seen`".  `others` lists what the
+    other clients commit between the tip lookup and the pointer update of the 1st, 2nd, …
+    attempt.  If the constraint fails the object is removed again and the next attempt rebuilds
+    it against the new tip; after `fuel` (= maxCommitRetries) attempts the merge gives up. -/
+def mergeLoop (cfg : Cfg K V) : Nat → State K V → Nat → Nat → List (List (Op V)) → Except Err (State K V)
+  | 0, _, _, _, _ => .error .conflict
+  | fuel + 1, s, ctip, parent, others =>
+    match s.tip parent with
+    | none => .error .noBranch
+    | some seen =>
+      match mergeActions s.commits ctip seen with
+      | .error e => .error e
+      | .ok acts =>
+        let s' := run cfg s (others.headD [])
+        if s'.tip parent == some seen then .ok (s'.commit parent seen acts)
+        else mergeLoop cfg fuel s' ctip parent others.tail
 
 end Zed.Lake
